@@ -371,6 +371,10 @@ private:
   const assumption_map_t *m_assumptions;
   // Used to skip the analysis until m_entry is found
   bool m_skip;
+  // The states the analysis starts from at m_entry. They flow into
+  // m_entry like the post of one more predecessor: m_entry can also
+  // have real predecessors if it is part of a cycle.
+  AbstractValue m_init;
 
   inline AbstractValue make_top() const { return m_absval_fac.make_top(); }
 
@@ -446,12 +450,14 @@ private:
 public:
   wto_iterator(interleaved_iterator_t *iterator, const AbstractValue &absval_fac)
       : m_iterator(iterator), m_entry(m_iterator->get_cfg().entry()),
-        m_absval_fac(absval_fac), m_assumptions(nullptr), m_skip(true) {}
+        m_absval_fac(absval_fac), m_assumptions(nullptr), m_skip(true),
+        m_init(m_iterator->get_pre(m_entry)) {}
 
   wto_iterator(interleaved_iterator_t *iterator, basic_block_label_t entry,
                const AbstractValue &absval_fac, const assumption_map_t *assumptions)
       : m_iterator(iterator), m_entry(entry), m_absval_fac(absval_fac),
-        m_assumptions(assumptions), m_skip(true) {}
+        m_assumptions(assumptions), m_skip(true),
+        m_init(m_iterator->get_pre(m_entry)) {}
 
   virtual void visit(wto_vertex_t &vertex) override {
     basic_block_label_t node = vertex.node();
@@ -470,28 +476,20 @@ public:
       return;
     }
 
-    AbstractValue pre = std::move(make_top());
-    if (node == m_entry) {
-      pre = m_iterator->get_pre(node);
-      if (m_assumptions && !m_assumptions->empty()) {
-        // no necessary but it might avoid copies
-        pre = strengthen(node, pre);
-        m_iterator->set_pre(node, pre);
-      }
-    } else {
-      auto prev_nodes = m_iterator->m_cfg.prev_nodes(node);
-      crab::CrabStats::resume("Fixpo.join_predecessors");
-      pre = std::move(make_bottom());
-      for (basic_block_label_t prev : prev_nodes) {
-        pre |= m_iterator->get_post(prev);
-      }
-      crab::CrabStats::stop("Fixpo.join_predecessors");
-      if (m_assumptions && !m_assumptions->empty()) {
-        // no necessary but it might avoid copies
-        pre = strengthen(node, pre);
-      }
-      m_iterator->set_pre(node, pre);
+    auto prev_nodes = m_iterator->m_cfg.prev_nodes(node);
+    crab::CrabStats::resume("Fixpo.join_predecessors");
+    // The initial states enter m_entry together with the states coming
+    // from its predecessors (if m_entry is inside a cycle).
+    AbstractValue pre = (node == m_entry ? m_init : make_bottom());
+    for (basic_block_label_t prev : prev_nodes) {
+      pre |= m_iterator->get_post(prev);
     }
+    crab::CrabStats::stop("Fixpo.join_predecessors");
+    if (m_assumptions && !m_assumptions->empty()) {
+      // no necessary but it might avoid copies
+      pre = strengthen(node, pre);
+    }
+    m_iterator->set_pre(node, pre);
 
     compute_post(node, pre);
   }
@@ -539,20 +537,20 @@ public:
     AbstractValue pre = std::move(make_bottom());
     wto_nesting_t cycle_nesting = get_nesting(head);
 
-    if (entry_in_this_cycle) {
-      CRAB_VERBOSE_IF(
-          2, crab::outs() << "Skipped predecessors of "
-                          << crab::basic_block_traits<basic_block_t>::to_string(
-                                 head)
-                          << "\n");
-      pre = m_iterator->get_pre(m_entry);
-    } else {
+    {
+      // If the analysis starts inside this cycle then the predecessors
+      // outside the cycle have been skipped (their post is bottom).
       crab::CrabStats::count("Fixpo.join_predecessors");
       crab::ScopedCrabStats __st__("Fixpo.join_predecessors");
       for (basic_block_label_t prev : prev_nodes) {
         if (!(get_nesting(prev) > cycle_nesting)) {
           pre |= m_iterator->get_post(prev);
         }
+      }
+      if (head == m_entry) {
+        // The initial states enter the head like the post of one more
+        // predecessor outside the cycle.
+        pre |= m_init;
       }
     }
     if (m_assumptions && !m_assumptions->empty()) {
@@ -572,7 +570,7 @@ public:
         it->accept(this);
       }
       crab::CrabStats::resume("Fixpo.join_predecessors");
-      AbstractValue new_pre = std::move(make_bottom());
+      AbstractValue new_pre = (head == m_entry ? m_init : make_bottom());
       for (basic_block_label_t prev : prev_nodes) {
         new_pre |= m_iterator->get_post(prev);
       }
@@ -606,7 +604,7 @@ public:
         it->accept(this);
       }
       crab::CrabStats::resume("Fixpo.join_predecessors");
-      AbstractValue new_pre = std::move(make_bottom());
+      AbstractValue new_pre = (head == m_entry ? m_init : make_bottom());
       for (basic_block_label_t prev : prev_nodes) {
         new_pre |= m_iterator->get_post(prev);
       }
